@@ -137,6 +137,13 @@ Section Pressure.
                 | p :: r => b <- f p ;; r' <- go r ;; Ok (if b then p :: r' else r')
                 end.
 
+  (* [d for p, d in zip(indices, differences) if f p] *)
+  Definition zipfilter_res (f : nat -> res bool) : list nat -> list T -> res (list T) :=
+    fix go ind df := match ind, df with
+                     | p :: r, d :: rd => b <- f p ;; r' <- go r rd ;; Ok (if b then d :: r' else r')
+                     | _, _ => Ok []
+                     end.
+
   (* rule 1: `if round(min(instr_ports), 2) <= 0:` ... residual hand-over, zeroing, removal from indices *)
   Definition rule1 (ps : list T) (mn : T) (pp1 : list T) (ind : list nat) (ip2 df2 : list T)
     : res (list T * list nat * list T * list T * nat) :=
@@ -156,7 +163,10 @@ Section Pressure.
                | [] => Err EIndex
                | zi :: _ => ppb <- set_nth ppa zi zero ;; Ok (ppb, ipa, dfb, 0)
                end
-             else Ok (pp1, ip2, df2, 1)) ;;
+             else
+               (* drained to exactly 0.0: the budget entries of the ports that leave `indices` below leave too *)
+               dfz <- zipfilter_res (fun p => v <- nth_res pp1 p ;; Ok (nltb N zero v)) ind df2 ;;
+               Ok (pp1, ip2, dfz, 1)) ;;
       let '(pp', ip', df', ex) := r0 in
       ind' <- filter_res (fun p => v <- nth_res pp' p ;; Ok (nltb N zero v)) ind ;;
       ip'' <- getmany pp' ind' ;;
